@@ -282,3 +282,114 @@ Example C11_witness_start_order :
       (0, ISrc 2%nat (Next 20)); (0, ISrc 2%nat Done)])))
   = [0%nat; 1%nat; 2%nat; 3%nat].
 Proof. vm_compute. reflexivity. Qed.
+
+(* ==== (e) FIRST ERROR WINS for flat_map / merge_all and merge(max_concurrent) / concat_map ====
+   [error_source mapper ol cnt running i err]: input i is the error err of the still-live outer, or
+   an element of the still-live outer on which the mapper (called with index cnt) raises err, or the
+   error err of a running inner. *)
+From RxVerif Require Import Ops.SequentialFacts Ops.ConcatMapFacts.
+
+(* EVERY mapper, EVERY input sequence: the output carries the error err at trace position q+1 IFF
+   the output has not ended before input q (the specification's state exists there) and input q is an
+   error source w.r.t. that state -- so it is the FIRST such event that is passed on, at its own
+   position, and errors of inners that are not running (terminated, or still waiting in the queue)
+   are never passed on *)
+Theorem C11_flat_map_error_iff_first_error_source : forall A (mapper : A -> nat -> res unit) (ins : list (Z * inp A)) q err,
+  In (S q, Err err) (temitted (fst (run (x_flat_map mapper) ins))) <->
+  exists now i ol' cnt' r', nth_error ins q = Some (now, i)
+     /\ fm_after mapper (true, 0%nat, []) (firstn q ins) = Some (ol', cnt', r')
+     /\ error_source mapper ol' cnt' r' i err.
+Proof. exact @flat_map_run_error_iff. Qed.
+Print Assumptions C11_flat_map_error_iff_first_error_source.
+Theorem C11_merge_concurrent_error_iff_first_error_source :
+  forall A mc (mapper : A -> nat -> res unit) (ins : list (Z * inp A)) q err,
+  In (S q, Err err) (temitted (fst (run (x_merge_concurrent mc mapper) ins))) <->
+  exists now i ol' cnt' r' q', nth_error ins q = Some (now, i)
+     /\ mc_after mapper mc (true, 0%nat, [], []) (firstn q ins) = Some (ol', cnt', r', q')
+     /\ error_source mapper ol' cnt' r' i err.
+Proof. exact @merge_concurrent_run_error_iff. Qed.
+Print Assumptions C11_merge_concurrent_error_iff_first_error_source.
+(* the same from any state of the specifications *)
+Theorem C11_flat_map_spec_error_iff : forall A (mapper : A -> nat -> res unit) ol cnt running pos (ins : list (Z * inp A)) q err,
+  In ((pos + q)%nat, Err err) (flat_map_spec mapper ol cnt running pos ins) <->
+  exists now i ol' cnt' r', nth_error ins q = Some (now, i)
+     /\ fm_after mapper (ol, cnt, running) (firstn q ins) = Some (ol', cnt', r')
+     /\ error_source mapper ol' cnt' r' i err.
+Proof. exact @flat_map_spec_error_iff. Qed.
+Print Assumptions C11_flat_map_spec_error_iff.
+Theorem C11_mc_spec_error_iff : forall A (mapper : A -> nat -> res unit) mc ol cnt running queue pos (ins : list (Z * inp A)) q err,
+  In ((pos + q)%nat, Err err) (mc_spec mapper mc ol cnt running queue pos ins) <->
+  exists now i ol' cnt' r' q', nth_error ins q = Some (now, i)
+     /\ mc_after mapper mc (ol, cnt, running, queue) (firstn q ins) = Some (ol', cnt', r', q')
+     /\ error_source mapper ol' cnt' r' i err.
+Proof. exact @mc_spec_error_iff. Qed.
+Print Assumptions C11_mc_spec_error_iff.
+(* ... and the error is the LAST event of the output *)
+Theorem C11_flat_map_error_is_last : forall A (mapper : A -> nat -> res unit) ol cnt running pos (ins : list (Z * inp A)) p err,
+  In (p, Err err) (flat_map_spec mapper ol cnt running pos ins) ->
+  exists pre, flat_map_spec mapper ol cnt running pos ins = pre ++ [(p, Err err)].
+Proof. exact @flat_map_error_is_last. Qed.
+Print Assumptions C11_flat_map_error_is_last.
+Theorem C11_mc_error_is_last : forall A (mapper : A -> nat -> res unit) mc ol cnt running queue pos (ins : list (Z * inp A)) p err,
+  In (p, Err err) (mc_spec mapper mc ol cnt running queue pos ins) ->
+  exists pre, mc_spec mapper mc ol cnt running queue pos ins = pre ++ [(p, Err err)].
+Proof. exact @mc_error_is_last. Qed.
+Print Assumptions C11_mc_error_is_last.
+
+(* inner 2 fails while it waits in the queue (ignored), then inner 1 fails while running (passed on,
+   nothing after it); the state before input 3 has inner 1 running and inner 2 waiting *)
+Example C11_witness_first_error :
+  let ins := [(0, ISrc 0%nat (Next 1)); (0, ISrc 0%nat (Next 2)); (0, ISrc 2%nat (Err 8));
+              (0, ISrc 1%nat (Err 7)); (0, ISrc 0%nat (Err 9))] in
+  temitted (fst (run (x_merge_concurrent 1 (fun _ _ => Ok tt)) ins)) = [(4%nat, Err 7)]
+  /\ mc_after (A:=Z) (fun _ _ => Ok tt) 1 (true, 0%nat, [], []) (firstn 3 ins) = Some (true, 2%nat, [1%nat], [2%nat])
+  /\ temitted (fst (run (x_flat_map (fun x k => if Z.eqb x 2 then Raise 5 else Ok tt)) ins)) = [(2%nat, Err 5)].
+Proof. vm_compute. repeat split; reflexivity. Qed.
+
+(* ==== (d) CONCAT_MAP (merge(max_concurrent = 1) after map) emits the ORDERED CONCATENATION ====
+   [inner_elems j ins]: the elements inner j delivers in ins, in order; [out_elems]: the elements of an
+   output; [cold mapper 1 st ins]: every notification of an inner in ins arrives while that inner is
+   running (subscribed) in the specification's state at that moment -- inners that produce only while
+   subscribed. *)
+(* EVERY mapper, EVERY input sequence -- whatever the interleaving of the outer's notifications with the
+   inners' -- during which the output has not ended and whose inners are cold: the elements emitted are
+   the elements of inner 1, then those of inner 2, ..., then those of inner cnt (cnt inners created) *)
+Theorem C11_concat_map_ordered_concatenation :
+  forall A (mapper : A -> nat -> res unit) (ins : list (Z * inp A)) ol cnt running queue,
+  mc_after mapper 1 (true, 0%nat, [], []) ins = Some (ol, cnt, running, queue) ->
+  cold mapper 1 (true, 0%nat, [], []) ins ->
+  out_elems (temitted (fst (run (x_merge_concurrent 1 mapper) ins)))
+  = concat (map (fun j => inner_elems j ins) (seq 1 cnt)).
+Proof. exact @concat_map_ordered. Qed.
+Print Assumptions C11_concat_map_ordered_concatenation.
+
+(* closed form, terminal included, in one concrete environment (a synchronous outer delivering xs and
+   completing, then the inners one after the other, a mapper that does not raise): the output is
+   [concat_spec] of the inner sequences -- exactly the closed form of concat (C10_concat_closed_form):
+   all elements of the inners in outer order, the first inner error passed on, completion after the
+   last inner, open if an inner never terminates *)
+Theorem C11_concat_map_closed_form :
+  forall A (mapper : A -> nat -> res unit), (forall x k, mapper x k = Ok tt) ->
+  forall (xs : list A) (srcs : list (list A * term)), length srcs = length xs ->
+  emitted (fst (run (x_merge_concurrent 1 mapper) (cm_env xs srcs))) = concat_spec srcs.
+Proof. exact @concat_map_closed_form. Qed.
+Print Assumptions C11_concat_map_closed_form.
+
+(* the hypotheses of the ordered-concatenation theorem hold on an interleaved schedule: the outer's
+   second and third elements arrive while inner 1 runs, its completion while inner 2 runs *)
+Example C11_witness_concat_map_ordered :
+  let ins := [(0, ISrc 0%nat (Next 1)); (0, ISrc 1%nat (Next 10)); (0, ISrc 0%nat (Next 2));
+              (0, ISrc 1%nat (Next 11)); (0, ISrc 0%nat (Next 3)); (0, ISrc 1%nat Done);
+              (0, ISrc 2%nat (Next 20)); (0, ISrc 0%nat Done); (0, ISrc 2%nat Done); (0, ISrc 3%nat (Next 30))] in
+  mc_after (A:=Z) (fun _ _ => Ok tt) 1 (true, 0%nat, [], []) ins = Some (false, 3%nat, [3%nat], [])
+  /\ cold (fun _ _ => Ok tt) 1 (true, 0%nat, [], []) ins
+  /\ out_elems (temitted (fst (run (x_merge_concurrent 1 (fun _ _ => Ok tt)) ins))) = [10; 11; 20; 30]
+  /\ concat (map (fun j => inner_elems j ins) (seq 1 3)) = [10; 11; 20; 30].
+Proof.
+  cbn zeta. split; [vm_compute; reflexivity|]. split; [apply coldb_cold; vm_compute; reflexivity|].
+  split; vm_compute; reflexivity.
+Qed.
+Example C11_witness_concat_map_closed_form :
+  emitted (fst (run (x_merge_concurrent 1 (fun _ _ => Ok tt)) (cm_env [1; 2; 3] [([10; 11], TDone); ([], TDone); ([30], TErr 4)])))
+  = [Next 10; Next 11; Next 30; Err 4].
+Proof. vm_compute. reflexivity. Qed.
